@@ -213,6 +213,12 @@ impl<T> Lazy<T> {
 /// printed (the definitions parser reports syntax complaints with `println!`).
 pub fn capture_stdout<R>(f: impl FnOnce() -> R) -> (R, String) {
     use std::io::Write;
+    if engine::cap::active() {
+        // worker process: fd 1 already points at the capture file
+        let m = engine::cap::mark();
+        let r = f();
+        return (r, engine::cap::since(m));
+    }
     use std::os::unix::io::AsRawFd;
     let _ = std::io::stdout().flush();
     let dir = std::env::var("VERIF_DIR").unwrap_or_else(|_| "/verif".into());
